@@ -134,7 +134,7 @@ def derive_seed(seed, pid, stage, worker):
 
 def san_env(extra=None):
     env = dict(os.environ)
-    env["ASAN_OPTIONS"] = "detect_leaks=1:abort_on_error=0:exitcode=77:allocator_may_return_null=1:detect_stack_use_after_return=1"
+    env["ASAN_OPTIONS"] = "detect_leaks=1:abort_on_error=0:exitcode=77:allocator_may_return_null=1:detect_stack_use_after_return=1:quarantine_size_mb=16:handle_abort=1"
     env["UBSAN_OPTIONS"] = "print_stacktrace=1:halt_on_error=1:exitcode=77"
     env["LSAN_OPTIONS"] = "exitcode=77"
     env["TSAN_OPTIONS"] = "halt_on_error=1:exitcode=77:second_deadlock_stack=1"
